@@ -542,4 +542,16 @@ def plan(draw, prof):
     if kind == "max_customers":
         return {"kind": "max_customers", "n": draw(st.integers(1, 25)),
                 "method": draw(st.sampled_from(["Complete", "Finish", "Arrive", "Accept"]))}
+    if kind == "mixed":
+        # one Simulation continued by calls of both stopping methods in any order (2-4 calls): horizons increase, counts are absolute totals
+        k = draw(st.integers(2, 4))
+        steps, t, n = [], lo / 2.0, 0
+        for _ in range(k):
+            if _flag(draw, 0.5):
+                t = t + draw(st.integers(1, max(2, int((hi - lo) * 2)))) / 4.0
+                steps.append(["max_time", t])
+            else:
+                n = n + draw(st.integers(1, 10))
+                steps.append(["max_customers", n, draw(st.sampled_from(["Complete", "Finish", "Arrive", "Accept"]))])
+        return {"kind": "mixed", "steps": steps}
     return {"kind": "until_deadlock"}
